@@ -3,7 +3,7 @@
 M: Server!RouteAccepted is the decision table of the statement (no configuration: any route path; simple device: only
    requests without a route path; configured path: no route path or exactly that one); TLC explores MC_Server with the
    route frame set under each personality.
-R: the full matrix personality {none, simple, 1/0, 2/3, 1/0/2/3, 2/1.2.3.4} x request route path {absent (no
+R: the full matrix personality {none, simple, 1/0, 2/3, 1/0/2/3, 2/1.2.3.4, 1/5} x request route path {absent (no
    Unconnected Send wrapper), empty, 1/0, 2/3, 1/1, 2/0, two-segment, address link, extended port} x service {write,
    read, Get Attribute Single, bundle}, each as a one-frame session (and two-frame sessions for the configured
    personalities) on the real server configured the way main() configures it (UCMM subclass with route_path).
@@ -18,7 +18,7 @@ import random
 from .. import core, serverlib
 
 LEVEL = "model_checking"
-PERS = ["any", "simple", "p10", "p23", "p10_23", "pa"]
+PERS = ["any", "simple", "p10", "p23", "p10_23", "pa", "p15"]
 
 
 def _check_text(job):
@@ -37,7 +37,7 @@ def main(ctx):
     ev = ctx.ev
     wd = core.workdir()
     rng = random.Random(ctx.seed)
-    ev.rule = ("cases: (personality, request route path, service): the full 6 x 9 x 4 matrix as one-frame sessions, plus "
+    ev.rule = ("cases: (personality, request route path, service): the full 7 x 12 x 4 matrix as one-frame sessions, plus "
                "two-frame sessions per personality, plus route-path texts.  Non-trivial: the request carries a route path "
                "(wrapper present and non-empty) -- the filter has to decide.")
     ev.assumptions = ["an Unconnected Send wrapper with an empty route path counts as 'no route path' (statement: 'carries no route path')",
